@@ -232,6 +232,24 @@ class EnumAnalysis:
 
     def contributions(self, e, env):
         """classify a list-valued expression"""
+        # filter(lambda v: COND, ITER)  is  [v for v in ITER if COND]
+        if isinstance(e, ast.Call) and isinstance(e.func, ast.Name) and e.func.id == 'filter' and len(e.args) == 2 and isinstance(e.args[0], ast.Lambda) and len(e.args[0].args.args) == 1 and not e.keywords:
+            v = e.args[0].args.args[0].arg
+            lc = ast.ListComp(elt=ast.Name(v, ast.Load()), generators=[ast.comprehension(target=ast.Name(v, ast.Store()), iter=e.args[1], ifs=[e.args[0].body], is_async=0)])
+            ast.copy_location(lc, e)
+            ast.fix_missing_locations(lc)
+            return self.contributions(lc, env)
+        # itertools.product(S, [x])  is  [(s, x) for s in S]   (and product([x], S) the mirrored pairs)
+        if isinstance(e, ast.Call) and self.m.dotted(e.func) == 'itertools.product' and len(e.args) == 2 and not e.keywords and \
+                any(isinstance(a, (ast.List, ast.Tuple)) and len(a.elts) == 1 for a in e.args) and not all(isinstance(a, (ast.List, ast.Tuple)) for a in e.args):
+            one_first = isinstance(e.args[0], (ast.List, ast.Tuple)) and len(e.args[0].elts) == 1
+            S_, one = (e.args[1], e.args[0].elts[0]) if one_first else (e.args[0], e.args[1].elts[0])
+            var = ast.Name('__p', ast.Load())
+            pair = ast.Tuple(elts=[one, var] if one_first else [var, one], ctx=ast.Load())
+            lc = ast.ListComp(elt=pair, generators=[ast.comprehension(target=ast.Name('__p', ast.Store()), iter=S_, ifs=[], is_async=0)])
+            ast.copy_location(lc, e)
+            ast.fix_missing_locations(lc)
+            return self.contributions(lc, env)
         if isinstance(e, ast.GeneratorExp):
             # a generator handed to extend / list(): the elements it yields are those of the comprehension
             lc = ast.copy_location(ast.ListComp(elt=e.elt, generators=e.generators), e)
